@@ -250,7 +250,7 @@ def check_enum(cx, fn, rep, facts, partial):
             continue
         if e['k'] != 'Match':
             from ..emptiness import empty_evidence
-            if not (len(atoms) == 1 and empty_evidence(atoms) and C.tail_ok(e)):
+            if not (len(atoms) == 1 and empty_evidence(atoms, S.cx, S.fw) and C.tail_ok(e)):
                 S.bad('SUM-ORD', 'enum-empty', 'constant result emitted outside the empty-enum case or not Equal', b)
                 allok = False
             continue
